@@ -116,6 +116,18 @@ theorem C10_implementedBy_twin (v : ImplView) : implementedByC v = implementedBy
 whenever the declaration is a specification -/
 theorem C10_sbProvidedBy_twin (d : DeclView) : sbProvidedByC d = sbProvidedByPy d := rfl
 
+
+/-- `ObjectSpecificationDescriptor.__get__`: same answer, same exception kind, on every outcome of the `__provides__` probe -/
+theorem C10_osd_get_twin (instIsNone : Bool) (p : Get ValView) : osdGetC instIsNone p = osdGetPy instIsNone p := by
+  unfold osdGetC osdGetPy
+  cases instIsNone
+  · cases p with
+    | ok v => rfl
+    | err e => cases e <;> rfl
+  · rfl
+/-- `ClassProvidesBase.__get__` -/
+theorem C10_cpb_get_twin (a b : Bool) : cpbGetC a b = cpbGetPy a b := rfl
+
 #print axioms C10_providedBy_twin
 #print axioms C10_implementedBy_twin
 end ZI.SpecTwin
